@@ -306,3 +306,42 @@ func (f *FaultyReader) Read(p []byte) (int, error) {
 	}
 	return n, nil
 }
+
+// RW is a minimal fox.ResponseWriter over a simulated connection, used where the API wants a caller-supplied writer
+// (Router.Lookup, Context.CloneWith).
+type RW struct {
+	C      *Conn
+	status int
+	size   int
+	wrote  bool
+}
+
+func NewRW(c *Conn) *RW { return &RW{C: c, status: 200} }
+
+func (w *RW) Header() http.Header { return w.C.H }
+func (w *RW) WriteHeader(code int) {
+	if !w.wrote {
+		w.wrote = true
+		w.status = code
+		w.C.WriteHeader(code)
+	}
+}
+func (w *RW) Write(p []byte) (int, error) {
+	if !w.wrote {
+		w.WriteHeader(w.status)
+	}
+	n, err := w.C.Write(p)
+	w.size += n
+	return n, err
+}
+func (w *RW) WriteString(s string) (int, error)            { return w.Write([]byte(s)) }
+func (w *RW) ReadFrom(r io.Reader) (int64, error)          { return io.Copy(struct{ io.Writer }{w}, r) }
+func (w *RW) Status() int                                  { return w.status }
+func (w *RW) Written() bool                                { return w.wrote }
+func (w *RW) Size() int                                    { return w.size }
+func (w *RW) FlushError() error                            { return nil }
+func (w *RW) Hijack() (net.Conn, *bufio.ReadWriter, error) { return nil, nil, http.ErrNotSupported }
+func (w *RW) Push(string, *http.PushOptions) error         { return http.ErrNotSupported }
+func (w *RW) SetReadDeadline(time.Time) error              { return http.ErrNotSupported }
+func (w *RW) SetWriteDeadline(time.Time) error             { return http.ErrNotSupported }
+func (w *RW) EnableFullDuplex() error                      { return http.ErrNotSupported }
